@@ -424,6 +424,16 @@ def check_from_config(variant):
         diff = [i for i in range(24) if got[i] != ref[i]] if len(got) == 24 else "shape"
         viols.append(violation("config_rule_at_stated_position", "router.from_config:%s" % variant,
                                "slots %s differ: got %s want %s" % (diff, got, ref)))
+    # episode set-up (what env.reset runs after loading) neither adds nor removes a rule: every slot keeps its content
+    for ep in (1, 2):
+        router.setup_for_episode(episode=ep)
+        got = ad._read(s)
+        if got != ref:
+            diff = [i for i in range(24) if got[i] != ref[i]] if len(got) == 24 else "shape"
+            viols.append(violation("only_addressed_slot_changes", "router.setup_for_episode:%s" % variant,
+                                   "after setup_for_episode(%d) slots %s differ from the loaded rule list: got %s want %s" % (
+                                       ep, diff, [got[i] for i in diff] if diff != "shape" else got, [ref[i] for i in diff] if diff != "shape" else ref)))
+            break
     return viols
 
 
